@@ -520,6 +520,11 @@ R06.7 the only state shared between the output files of a run, the remote-templa
 	}
 	// R06.6
 	ruleFreshGenerator(c, r, "R06.6")
+	// the iterations of the per-file loop are independent (reviewed table, map range of Run) only if two keys
+	// never designate one file: the keys are absolute paths
+	if okAbs, badKey := collectionKeyIsAbsolute(r); true {
+		c.Check(okAbs, "R06.6", "Run|collection-key-absolute", "internal/cmd/mockery.go", "distinct keys of the per-file map designate distinct files", "the per-file collections are keyed by the path as spelled ("+badKey+"): one output file reachable through a relative and an absolute spelling is written once per spelling, in map order, so which mocks the file ends up with differs from run to run")
+	}
 	// re-running over one's own output: the overwrite guard consults the file's (or its package's) force-file-write,
 	// so enabling overwriting where the mocks are configured is enough for the second run to succeed
 	{
